@@ -278,8 +278,14 @@ class DataSegment(FixSerializable):
             raise ValueError(f'{[self.TagNameMapping[field] for field in missing_fields]} mandatory fields missing')
 
 
-@attrs.define
+@attrs.define(eq=False)
 class Group(DataSegment):
+    def __eq__(self, other):
+        # A group instance is always written in the order of its Entries, whatever the order
+        # in which its fields were assigned: instances holding the same fields are equal.
+        # (the __eq__ generated by attrs compared the `values` OrderedDicts, which is order sensitive)
+        return isinstance(other, self.__class__) and dict(self.values) == dict(other.values)
+
     def to_bytes(self) -> tuple[int, bytes]:
         # The order of the fields in the groups should be as per definition
         bytes_ = SOH.join(
